@@ -3,12 +3,17 @@
 package main
 
 import (
+	"encoding/json"
 	"fmt"
+	"io/ioutil"
 	"net"
+	"os"
+	"path/filepath"
 	"strconv"
 	"strings"
 
 	"bfeverif/harness/internal/vh"
+	"github.com/bfenetworks/bfe/bfe_balance"
 	"github.com/bfenetworks/bfe/bfe_balance/bal_gslb"
 	"github.com/bfenetworks/bfe/bfe_basic"
 	"github.com/bfenetworks/bfe/bfe_config/bfe_cluster_conf/cluster_conf"
@@ -219,6 +224,9 @@ func genReload(r *vh.Rand) string {
 }
 
 func gen(r *vh.Rand) string {
+	if r.Chance(1, 8) {
+		return genBt(r)
+	}
 	if r.Chance(2, 5) {
 		return genReload(r)
 	}
@@ -400,6 +408,9 @@ func errName(err error) string {
 }
 
 func exec(op string) string {
+	if strings.HasPrefix(op, "bt ") {
+		return execBt(op)
+	}
 	f := strings.Split(op, " ")
 	if len(f) != 7 || f[0] != "gb" {
 		return "bad-op"
@@ -628,6 +639,472 @@ func exec(op string) string {
 		}
 	}
 	return strings.Join(out, ",")
+}
+
+// ---------- bt: the real path (configuration files -> loaders -> BalTable -> Lookup -> Balance)
+
+type btBackend struct {
+	addr string
+	w    int
+}
+type btSub struct {
+	name string
+	w    int
+	bs   []btBackend
+}
+type btCluster struct {
+	name string
+	subs []btSub
+}
+
+func fmtBt(cs []btCluster) string {
+	var cp []string
+	for _, c := range cs {
+		var sp []string
+		for _, s := range c.subs {
+			b := "-"
+			if len(s.bs) > 0 {
+				var bp []string
+				for _, x := range s.bs {
+					bp = append(bp, fmt.Sprintf("%s/%d", x.addr, x.w))
+				}
+				b = strings.Join(bp, "+")
+			}
+			sp = append(sp, fmt.Sprintf("%s=%d=%s", s.name, s.w, b))
+		}
+		cp = append(cp, c.name+"!"+strings.Join(sp, ";"))
+	}
+	return strings.Join(cp, "&")
+}
+
+func parseBt(s string) ([]btCluster, bool) {
+	var out []btCluster
+	for _, c := range strings.Split(s, "&") {
+		p := strings.Split(c, "!")
+		if len(p) != 2 || p[0] == "" {
+			return nil, false
+		}
+		cl := btCluster{name: p[0]}
+		for _, t := range strings.Split(p[1], ";") {
+			q := strings.Split(t, "=")
+			if len(q) != 3 || q[0] == "" {
+				return nil, false
+			}
+			w, err := strconv.Atoi(q[1])
+			if err != nil {
+				return nil, false
+			}
+			sb := btSub{name: q[0], w: w}
+			if q[2] != "-" {
+				for _, b := range strings.Split(q[2], "+") {
+					x := strings.Split(b, "/")
+					if len(x) != 2 {
+						return nil, false
+					}
+					bw, err := strconv.Atoi(x[1])
+					ci := strings.LastIndexByte(x[0], ':')
+					if err != nil || ci <= 0 {
+						return nil, false
+					}
+					if pt, err := strconv.Atoi(x[0][ci+1:]); err != nil || strconv.Itoa(pt) != x[0][ci+1:] {
+						return nil, false
+					}
+					sb.bs = append(sb.bs, btBackend{x[0], bw})
+				}
+			}
+			cl.subs = append(cl.subs, sb)
+		}
+		out = append(out, cl)
+	}
+	return out, true
+}
+
+// writeConf writes gslb.data and cluster_table.data the way the operators' tools do
+func writeConf(dir, ver string, cs []btCluster) (string, string, error) {
+	gslb := map[string]interface{}{"Hostname": "verif", "Ts": ver}
+	clusters := map[string]map[string]int{}
+	table := map[string]map[string][]map[string]interface{}{}
+	for _, c := range cs {
+		clusters[c.name] = map[string]int{}
+		table[c.name] = map[string][]map[string]interface{}{}
+		for _, s := range c.subs {
+			clusters[c.name][s.name] = s.w
+			lst := []map[string]interface{}{}
+			for i, b := range s.bs {
+				ci := strings.LastIndexByte(b.addr, ':')
+				port, _ := strconv.Atoi(b.addr[ci+1:])
+				lst = append(lst, map[string]interface{}{"Name": fmt.Sprintf("%s-%d", s.name, i), "Addr": b.addr[:ci], "Port": port, "Weight": b.w})
+			}
+			table[c.name][s.name] = lst
+		}
+	}
+	gslb["Clusters"] = clusters
+	g, _ := json.Marshal(gslb)
+	t, _ := json.Marshal(map[string]interface{}{"Version": ver, "Config": table})
+	gf, tf := filepath.Join(dir, "gslb.data"), filepath.Join(dir, "cluster_table.data")
+	if err := ioutil.WriteFile(gf, g, 0644); err != nil {
+		return "", "", err
+	}
+	return gf, tf, ioutil.WriteFile(tf, t, 0644)
+}
+
+func execBt(op string) string {
+	f := strings.Split(op, " ")
+	if len(f) != 6 {
+		return "bad-op"
+	}
+	mode := cluster_conf.BalanceModeWrr
+	if f[1] == "wlc" {
+		mode = cluster_conf.BalanceModeWlc
+	}
+	sticky := f[2] == "1"
+	rmax, e1 := strconv.Atoi(f[3])
+	cross, e2 := strconv.Atoi(f[4])
+	if e1 != nil || e2 != nil {
+		return "bad-op"
+	}
+	dir, err := ioutil.TempDir("/var/tmp", "verif-c03-")
+	if err != nil {
+		return "bad-op"
+	}
+	defer os.RemoveAll(dir)
+	tab := bfe_balance.NewBalTable(nil)
+	loaded := false
+	known := map[string]bool{} // cluster|sub|addr that exist: a second new backend in one sub per load is refused (map order)
+	basics := func(cs []btCluster) {
+		for _, c := range cs {
+			if bal, err := tab.Lookup(c.name); err == nil {
+				strat, hdr, st, rm, cr, md := cluster_conf.ClientIpOnly, "", sticky, rmax, cross, mode
+				bal.SetGslbBasic(cluster_conf.GslbBasicConf{CrossRetry: &cr, RetryMax: &rm, BalanceMode: &md,
+					HashConf: &cluster_conf.HashConf{HashStrategy: &strat, HashHeader: &hdr, SessionSticky: &st}})
+			}
+		}
+	}
+	var out []string
+	for _, st := range strings.Split(f[5], ",") {
+		if st == "" {
+			return "bad-op"
+		}
+		switch st[0] {
+		case 'L':
+			p := strings.SplitN(st[1:], "~", 2)
+			if len(p) != 2 {
+				return "bad-op"
+			}
+			cs, ok := parseBt(p[1])
+			if !ok {
+				return "bad-op"
+			}
+			if loaded { // Update appends new backends in map order: keep that deterministic
+				for _, c := range cs {
+					for _, s := range c.subs {
+						fresh := 0
+						for _, b := range s.bs {
+							if !known[c.name+"|"+s.name+"|"+b.addr] {
+								fresh++
+							}
+						}
+						if fresh > 1 {
+							return "bad-op"
+						}
+					}
+				}
+			}
+			gf, tf, err := writeConf(dir, p[0], cs)
+			if err != nil {
+				return "bad-op"
+			}
+			if !loaded {
+				if err := tab.Init(gf, tf); err != nil {
+					return "init-err"
+				}
+				loaded = true
+			} else {
+				gc, bc, err := tab.BalTableConfLoad(gf, tf)
+				if err != nil {
+					out = append(out, "Lrej") // the server keeps the old table
+					continue
+				}
+				if err := tab.BalTableReload(gc, bc); err != nil {
+					out = append(out, "Lerr")
+					continue
+				}
+			}
+			known = map[string]bool{}
+			for _, c := range cs {
+				for _, s := range c.subs {
+					for _, b := range s.bs {
+						known[c.name+"|"+s.name+"|"+b.addr] = true
+					}
+				}
+			}
+			basics(cs)
+			out = append(out, "Lok")
+		case 'q':
+			p := strings.Split(st[1:], ":")
+			if len(p) != 3 {
+				return "bad-op"
+			}
+			retry, err := strconv.Atoi(p[1])
+			key, ok := vh.UnHex(p[2])
+			if err != nil || !ok || len(key) == 0 {
+				return "bad-op"
+			}
+			bal, err := tab.Lookup(p[0])
+			if err != nil {
+				out = append(out, "nocluster")
+				continue
+			}
+			req := new(bfe_basic.Request)
+			req.HttpRequest = new(bfe_http.Request)
+			req.ClientAddr = &net.TCPAddr{IP: net.IP(key), Port: 1}
+			req.RetryTime = retry
+			b, err := bal.Balance(req)
+			subn := req.Backend.SubclusterName
+			if subn == "" {
+				subn = "?"
+			}
+			if err == nil {
+				out = append(out, fmt.Sprintf("ok:%s:%s:%d", subn, strings.ReplaceAll(b.AddrInfo, ":", "_"), req.RetryTime))
+			} else {
+				out = append(out, fmt.Sprintf("err:%s:%s:%d", errName(err), subn, req.RetryTime))
+			}
+		case 'a', 'c':
+			eq := strings.LastIndexByte(st, '=')
+			if eq < 0 {
+				return "bad-op"
+			}
+			p := strings.Split(st[1:eq], "|")
+			n, err := strconv.Atoi(st[eq+1:])
+			if len(p) != 3 || err != nil || n < -1000 || n > 1000 {
+				return "bad-op"
+			}
+			bal, err := tab.Lookup(p[0])
+			if err != nil {
+				continue
+			}
+			rr := bal.VerifC03SubRR(p[1])
+			if rr == nil || rr.VerifC03Backend(p[2]) == nil {
+				continue
+			}
+			h := rr.VerifC03Backend(p[2])
+			if st[0] == 'a' {
+				h.SetAvail(n == 1)
+			} else {
+				for h.ConnNum() < n {
+					h.IncConnNum()
+				}
+				for h.ConnNum() > n {
+					h.DecConnNum()
+				}
+			}
+		default:
+			return "bad-op"
+		}
+	}
+	return strings.Join(out, ",")
+}
+
+var btSubNames = []string{"0.first", "GSLB_BLACKHOLE", "a.bj", "b.gz", "idc-a", "idc-b", "zz.last"}
+
+func genBt(r *vh.Rand) string {
+	addrN := 0
+	newBackend := func() btBackend {
+		addrN++
+		w := []int{1, 1, 2, 3, 5, 10, 0}[r.Intn(7)]
+		return btBackend{fmt.Sprintf("10.2.%d.%d:%d", r.Intn(2), addrN, 80+r.Intn(2)), w}
+	}
+	newSub := func(used map[string]bool, nb int) (btSub, bool) {
+		nm := btSubNames[r.Intn(len(btSubNames))]
+		if used[nm] {
+			return btSub{}, false
+		}
+		used[nm] = true
+		s := btSub{name: nm, w: []int{0, 0, 1, 5, 30, 100, -2}[r.Intn(7)]}
+		for i := 0; i < nb; i++ {
+			s.bs = append(s.bs, newBackend())
+		}
+		return s, true
+	}
+	fix := func(cs []btCluster, invalid bool) {
+		for ci := range cs {
+			pos := false
+			for si := range cs[ci].subs {
+				s := &cs[ci].subs[si]
+				pos = pos || s.w > 0
+				ok := false
+				for _, b := range s.bs {
+					ok = ok || b.w > 0
+				}
+				if !ok && !invalid {
+					if len(s.bs) == 0 {
+						s.bs = append(s.bs, newBackend())
+					}
+					s.bs[r.Intn(len(s.bs))].w = r.Range(1, 4)
+				}
+			}
+			if !pos && !invalid {
+				i := r.Intn(len(cs[ci].subs))
+				if cs[ci].subs[i].name == "GSLB_BLACKHOLE" && len(cs[ci].subs) > 1 {
+					i = (i + 1) % len(cs[ci].subs)
+				}
+				cs[ci].subs[i].w = r.Range(1, 50)
+			}
+		}
+	}
+	var cur []btCluster
+	for _, cn := range []string{"c1", "c2"}[:r.Range(1, 2)] {
+		used := map[string]bool{}
+		c := btCluster{name: cn}
+		for k := r.Range(1, 3); k > 0; k-- {
+			if s, ok := newSub(used, r.Range(1, 3)); ok {
+				c.subs = append(c.subs, s)
+			}
+		}
+		if len(c.subs) == 0 {
+			s, _ := newSub(used, 2)
+			c.subs = append(c.subs, s)
+		}
+		cur = append(cur, c)
+	}
+	fix(cur, false)
+	keys := [][]byte{r.Bytes(4), r.Bytes(4), r.Bytes(4)}
+	ver := 1
+	steps := []string{fmt.Sprintf("L%d~%s", ver, fmtBt(cur))}
+	reqs := func(cs []btCluster, k int) {
+		for i := 0; i < k; i++ {
+			cn := []string{"c1", "c2"}[r.Intn(2)]
+			if r.Chance(3, 4) && len(cs) > 0 {
+				cn = cs[r.Intn(len(cs))].name
+			}
+			retry := 0
+			if r.Chance(1, 5) {
+				retry = r.Range(0, 4)
+			}
+			steps = append(steps, fmt.Sprintf("q%s:%d:%s", cn, retry, vh.Hex(keys[r.Intn(len(keys))])))
+		}
+	}
+	flips := func(cs []btCluster) {
+		for k := r.Intn(3); k > 0; k-- {
+			c := cs[r.Intn(len(cs))]
+			s := c.subs[r.Intn(len(c.subs))]
+			if len(s.bs) == 0 {
+				continue
+			}
+			b := s.bs[r.Intn(len(s.bs))]
+			if r.Chance(2, 3) {
+				steps = append(steps, fmt.Sprintf("a%s|%s|%s=%d", c.name, s.name, b.addr, r.Intn(2)))
+			} else {
+				steps = append(steps, fmt.Sprintf("c%s|%s|%s=%d", c.name, s.name, b.addr, r.Range(0, 5)))
+			}
+		}
+	}
+	reqs(cur, r.Range(2, 4))
+	flips(cur)
+	reqs(cur, r.Range(1, 3))
+	for n := r.Range(1, 3); n > 0; n-- {
+		// next configuration: deep copy, then mutate
+		var next []btCluster
+		for _, c := range cur {
+			nc := btCluster{name: c.name}
+			for _, s := range c.subs {
+				ns := btSub{s.name, s.w, append([]btBackend(nil), s.bs...)}
+				nc.subs = append(nc.subs, ns)
+			}
+			next = append(next, nc)
+		}
+		invalid := r.Chance(1, 8)
+		if len(next) == 2 && r.Chance(1, 6) {
+			next = next[:1] // a cluster disappears
+		} else if len(next) == 1 && r.Chance(1, 4) {
+			used := map[string]bool{}
+			s, _ := newSub(used, 1)
+			nm := "c2"
+			if next[0].name == "c2" {
+				nm = "c1"
+			}
+			next = append(next, btCluster{nm, []btSub{s}}) // a new cluster
+		}
+		for ci := range next {
+			c := &next[ci]
+			used := map[string]bool{}
+			for _, s := range c.subs {
+				used[s.name] = true
+			}
+			for si := range c.subs {
+				s := &c.subs[si]
+				if r.Chance(1, 3) {
+					s.w = []int{0, 0, 1, 5, 30, 100, -2}[r.Intn(7)]
+				}
+				for bi := range s.bs {
+					if r.Chance(1, 3) {
+						s.bs[bi].w = []int{0, 0, 1, 2, 3, 5}[r.Intn(6)] // weight 0 after the reload: must not be served any more
+					}
+				}
+				if len(s.bs) > 1 && r.Chance(1, 4) {
+					j := r.Intn(len(s.bs))
+					s.bs = append(s.bs[:j:j], s.bs[j+1:]...)
+				}
+				if r.Chance(1, 3) {
+					s.bs = append(s.bs, newBackend()) // at most one new backend per sub-cluster
+				}
+			}
+			if len(c.subs) > 1 && r.Chance(1, 5) {
+				j := r.Intn(len(c.subs))
+				c.subs = append(c.subs[:j:j], c.subs[j+1:]...)
+			}
+			if r.Chance(1, 3) {
+				if s, ok := newSub(used, 1); ok {
+					c.subs = append(c.subs, s) // a new sub-cluster comes with exactly one backend
+				}
+			}
+		}
+		fix(next, invalid)
+		if invalid { // break it in one of the two ways the loaders reject
+			c := &next[r.Intn(len(next))]
+			if r.Bool() {
+				for si := range c.subs {
+					if c.subs[si].w > 0 {
+						c.subs[si].w = 0
+					}
+				}
+			} else {
+				s := &c.subs[r.Intn(len(c.subs))]
+				for bi := range s.bs {
+					s.bs[bi].w = 0
+				}
+			}
+		}
+		if r.Chance(1, 2) {
+			ver++ // otherwise: same version string, different content
+		}
+		steps = append(steps, fmt.Sprintf("L%d~%s", ver, fmtBt(next)))
+		stillValid := true
+		for _, c := range next {
+			pos := false
+			for _, s := range c.subs {
+				pos = pos || s.w > 0
+				ok := false
+				for _, b := range s.bs {
+					ok = ok || b.w > 0
+				}
+				stillValid = stillValid && ok
+			}
+			stillValid = stillValid && pos
+		}
+		if stillValid {
+			cur = next
+		}
+		reqs(cur, r.Range(2, 5))
+		flips(cur)
+		reqs(cur, r.Range(1, 3))
+	}
+	mode := r.Pick("wrr", "wrr", "wlc")
+	sticky := 0
+	if r.Chance(1, 4) {
+		sticky = 1
+	}
+	return fmt.Sprintf("bt %s %d %d %d %s", mode, sticky, r.Range(0, 2), r.Range(0, 2), strings.Join(steps, ","))
 }
 
 func main() { vh.Main(gen, exec) }
